@@ -151,6 +151,8 @@ pub enum CloseBehaviour {
     CloseOkThenEof,
     /// CloseOk and, in the same transmission, these frames (a server that keeps talking)
     CloseOkThen(Vec<AMQPFrame>),
+    /// these frames (events the server had in its pipe) and then CloseOk
+    FramesThenCloseOk(Vec<AMQPFrame>),
     /// never answer
     Silent,
     /// CloseOk after this much virtual time (ns)
@@ -600,6 +602,12 @@ impl StdBroker {
                         return;
                     }
                     match self.close_behaviour.clone() {
+                        CloseBehaviour::FramesThenCloseOk(fs) => {
+                            for f in &fs {
+                                out.frame(f);
+                            }
+                            out.frame(&AMQPFrame::Method(0, AMQPClass::Connection(connection::AMQPMethod::CloseOk(connection::CloseOk {}))));
+                        }
                         CloseBehaviour::CloseOkThen(fs) => {
                             out.frame(&AMQPFrame::Method(0, AMQPClass::Connection(connection::AMQPMethod::CloseOk(connection::CloseOk {}))));
                             for f in &fs {
